@@ -104,6 +104,42 @@ func specialiseTablePhis(fn *ssa.Function, optional bool) bool {
 				}
 			}
 		}
+		// a location chosen by control flow and written later: `q = &w.sessionEvents`
+		// in one arm, `&w.cookieEvents` in the other, `*q = append(*q, ev)` behind
+		// the join
+		if !found {
+			for _, in := range J.Instrs {
+				phi, ok := in.(*ssa.Phi)
+				if !ok {
+					break
+				}
+				if _, isPtr := phi.Type().Underlying().(*types.Pointer); !isPtr || phi.Referrers() == nil {
+					continue
+				}
+				addrs, other := 0, false
+				for _, e := range phi.Edges {
+					switch e.(type) {
+					case *ssa.FieldAddr, *ssa.IndexAddr:
+						addrs++
+					default:
+						if !IsNilConst(e) {
+							other = true
+						}
+					}
+				}
+				if addrs < 2 || other {
+					continue
+				}
+				for _, ref := range *phi.Referrers() {
+					if st, ok := ref.(*ssa.Store); ok && st.Addr == ssa.Value(phi) {
+						found = true
+					}
+				}
+				if found {
+					break
+				}
+			}
+		}
 		if found && cloneRegionPerPred(fn, J) {
 			return true
 		}
